@@ -83,6 +83,7 @@ fn main() {
     let modes = [Mode::Eager, Mode::Burst, Mode::SlowRead];
     let cfgs = grid(&sc, if quick { &[8, 4096] } else { &[8, 48, 4096] }, &[2, 64], &modes, &[0]);
     let mut small = asys::grid::with_small_lane_buf(&cfgs);
+    small.extend(asys::grid::with_small_lane_in_buf(&cfgs));
     small.extend(cfgs);
     let cfgs = small;
     run_grid(&ctx, GridSpec { name: "as-map-grid-d1".into(), cfgs, bound: 1, max_exec_per_cfg: 20_000, wall_cap_s: if quick { 22.0 } else { 1200.0 } });
